@@ -1,6 +1,7 @@
 package rules
 
 import (
+	"strings"
 	"go/token"
 	"go/types"
 
@@ -747,6 +748,7 @@ func mapRules(c *Ctx, pfx string) {
 	c.R.Floor(pfx+"5", 2)
 	c.payloadAndCursorDiscipline(r, pfx+"6", pfx+"7")
 	c.linkCensus(r, pfx+"8")
+	c.unlinkSurgery(r, pfx+"12")
 	// R9 the unlink routine reports as new head nil or its own successor; when it re-targets the head itself, it writes
 	// its own successor, and only where the unlinked node is known to be the head
 	unlinked := ssa.Value(nil)
@@ -915,6 +917,140 @@ func runC11(c *Ctx) {
 	c.unlinkClearsPayload(r, "C11.R5")
 	// R4: the cache holds at most its capacity: the capacity rule of C09
 	lruCapacityRule(c, resolveLRURoles(c), "C11.R4")
+	c.lruAuxTables(resolveLRURoles(c), "C11.R6")
+	c.compositeCloseClosesAll("C11.R7")
+}
+
+// lruAuxTables (C11.R6): the tables the cache keeps besides the entries themselves (the in-flight table, any further
+// built-in map of the cache struct) hold an entry only while the operation it belongs to runs. What the creator's
+// epilogue takes out on one outcome of the creation it takes out - or sees absent - on every outcome: an entry that is
+// removed only when the creation succeeded stays for ever when it failed, one key per such history step.
+func (c *Ctx) lruAuxTables(r *lruRoles, rule string) {
+	st := structOf(r.ecache)
+	n := 0
+	for _, fn := range r.bodies {
+		var create *ssa.Call
+		ir.Instrs(fn, func(in ssa.Instruction) {
+			if call, ok := in.(*ssa.Call); ok && !call.Call.IsInvoke() {
+				if _, isCreate := loadOfField(call.Call.Value, r.create); isCreate {
+					create = call
+				}
+			}
+		})
+		if create == nil {
+			continue
+		}
+		for i := 0; i < st.NumFields(); i++ {
+			f := st.Field(i).Origin()
+			if _, isMap := f.Type().Underlying().(*types.Map); !isMap {
+				continue
+			}
+			isDel := func(x ssa.Instruction) bool {
+				cc := builtinCall(x, "delete")
+				if cc == nil {
+					return false
+				}
+				_, ok := loadOfField(cc.Args[0], f)
+				return ok
+			}
+			var dels []ssa.Instruction
+			ir.Instrs(fn, func(x ssa.Instruction) {
+				if isDel(x) {
+					dels = append(dels, x)
+				}
+			})
+			reach := false
+			for _, d := range dels {
+				if w, _ := (ir.Query{Fn: fn, From: create, Target: func(x ssa.Instruction) bool { return x == d }}).Find(); w != nil {
+					reach = true
+				}
+			}
+			if !reach {
+				continue
+			}
+			n++
+			absent := func(from, to *ssa.BasicBlock) bool {
+				ef := ir.EdgeFact(from, to)
+				if ef == nil {
+					return false
+				}
+				ff := ef.StripNot()
+				ex, isEx := ff.Cond.(*ssa.Extract)
+				if !isEx || ex.Index != 1 || ff.True {
+					return false
+				}
+				lk, isLk := ex.Tuple.(*ssa.Lookup)
+				if !isLk {
+					return false
+				}
+				_, ok := loadOfField(lk.X, f)
+				return ok
+			}
+			c.NoPath(rule, "entry of "+f.Name()+" removed on every outcome of the creation", create, ir.Query{Fn: fn, From: create, Block: isDel, BlockEdge: absent,
+				Target: func(x ssa.Instruction) bool { return ir.IsExit(x) || x == ssa.Instruction(create) }},
+				"after the create function returned, the entry of the cache's table '"+f.Name()+"' is removed on some outcomes only: on the others it stays although its operation is over - the table grows with the history (one key per failed or overtaken creation), and whoever consults it later acts on a stale mark")
+		}
+	}
+	if n == 0 {
+		c.Decide(rule, r.getOrCreate, "creator epilogue cleans the cache's tables", nil, false, "no table clean-up found behind the create call")
+	}
+}
+
+// compositeCloseClosesAll (C11.R7): an iterator of this package that owns other iterators (fields of the Iterator
+// interface type, directly or in embedded-by-value structs) closes every one of them on every path of its Close, also
+// when an earlier Close reported an error - a source that is a map iterator pins a list node until it is closed.
+func (c *Ctx) compositeCloseClosesAll(rule string) {
+	iterIface := c.P.LookupType("container/iterable", "Iterator")
+	n := 0
+	for _, fn := range c.P.FuncsOf("container/iterable") {
+		if fn.Name() != "Close" || fn.Signature.Recv() == nil || len(fn.Blocks) == 0 || fn.Parent() != nil {
+			continue
+		}
+		// Close calls on values loaded from fields of the receiver
+		type site struct {
+			in   ssa.Instruction
+			path string
+		}
+		var sites []site
+		ir.Instrs(fn, func(in ssa.Instruction) {
+			ci, ok := in.(ssa.CallInstruction)
+			if !ok {
+				return
+			}
+			cc := ci.Common()
+			if !cc.IsInvoke() || cc.Method.Name() != "Close" || namedOf(cc.Value.Type()) != iterIface {
+				return
+			}
+			p := ir.Path(cc.Value)
+			if strings.HasPrefix(p, "recv.") {
+				sites = append(sites, site{in, p})
+			}
+		})
+		paths := map[string]bool{}
+		for _, s := range sites {
+			paths[s.path] = true
+		}
+		if len(paths) < 2 {
+			continue // owns at most one iterator
+		}
+		for p := range paths {
+			p := p
+			n++
+			isClose := func(x ssa.Instruction) bool {
+				for _, s := range sites {
+					if s.in == x && s.path == p {
+						return true
+					}
+				}
+				return false
+			}
+			c.NoPath(rule, "Close closes "+strings.TrimPrefix(p, "recv."), nil, ir.Query{Fn: fn, Block: isClose, Target: ir.IsExit},
+				"Close of the composite iterator can return without closing "+strings.TrimPrefix(p, "recv.")+" (an earlier Close failed): a map iterator behind it keeps its list node pinned for ever although the user closed everything it was given")
+		}
+	}
+	if n == 0 {
+		c.Decide(rule, nil, "composite iterators close every source", nil, false, "no iterator owning two sources found (the mixer changed shape)")
+	}
 }
 
 // hasLoop reports whether fn's CFG has a back edge.
@@ -1383,5 +1519,147 @@ func (c *Ctx) unlinkClearsPayload(r *mapRoles, rule string) {
 		}
 		c.Decide(rule, fn, "unlink zeroes the node's payload field of type "+p.Type().String(), at, bad == "",
 			"the unlink routine changes the node on a path that never overwrites its "+p.Type().String()+"-typed payload field with the zero value: the removed entry stays reachable through the recycled node after all iterators were closed (and First()/Next() at the end of the list report a removed key): "+bad)
+	}
+}
+
+// unlinkSurgery (R12): the pointer surgery of the unlink routine of the doubly linked list.
+//   - what a neighbour receives is the node's own link of the same name (node.A.B = node.B), or nil where the node is
+//     known to have no neighbour on that side;
+//   - that link is read before the node's own links are cleared;
+//   - a path that rewires one neighbour rewires the other one too, unless the node is known to have none there.
+// Each clause is necessary for "the list is the entries in insertion order": a successor whose back link is nil looks
+// like the head, a later unlink of it moves the head past everything in front of it.
+func (c *Ctx) unlinkSurgery(r *mapRoles, rule string) {
+	fn := r.unlink
+	if fn == nil || r.unlinkSubj >= len(fn.Params) {
+		c.Undecided(rule, fn, "unlink rewires both neighbours", nil, "unlink routine not resolved")
+		return
+	}
+	node := ssa.Value(fn.Params[r.unlinkSubj])
+	isNode := func(v ssa.Value) bool { return ir.Resolve(v) == node || v == node }
+	// own link address: &node.A
+	ownLink := func(addr ssa.Value) *types.Var {
+		fa, ok := addr.(*ssa.FieldAddr)
+		if !ok || !isNode(fa.X) || !r.isLink(ir.FieldOf(fa)) {
+			return nil
+		}
+		return ir.FieldOf(fa)
+	}
+	// neighbour link address: &(node.A).B  -> (A, B)
+	nbrLink := func(addr ssa.Value) (via, field *types.Var) {
+		fa, ok := addr.(*ssa.FieldAddr)
+		if !ok || !r.isLink(ir.FieldOf(fa)) {
+			return nil, nil
+		}
+		for _, o := range ir.Origins(fa.X) {
+			if ld, isLd := o.(*ssa.UnOp); isLd && ld.Op == token.MUL {
+				if a := ownLink(ld.X); a != nil {
+					return a, ir.FieldOf(fa)
+				}
+			}
+		}
+		return nil, nil
+	}
+	type nstore struct {
+		st         *ssa.Store
+		via, field *types.Var
+	}
+	var nbr []nstore
+	var own []*ssa.Store
+	ir.Instrs(fn, func(in ssa.Instruction) {
+		st, ok := in.(*ssa.Store)
+		if !ok {
+			return
+		}
+		if a, b := nbrLink(st.Addr); a != nil {
+			nbr = append(nbr, nstore{st, a, b})
+			return
+		}
+		if ownLink(st.Addr) != nil {
+			own = append(own, st)
+		}
+	})
+	if len(nbr) == 0 {
+		c.Decide(rule, fn, "unlink rewires both neighbours", nil, false, "the unlink routine writes no link of a neighbour")
+		return
+	}
+	noNeighbour := func(b *ssa.BasicBlock, link *types.Var) bool {
+		return hasFactCmp(b, func(cm ir.Cmp) bool {
+			if cm.Op != token.EQL {
+				return false
+			}
+			x, y := cm.X, cm.Y
+			if ir.IsNilConst(x) {
+				x, y = y, x
+			}
+			if !ir.IsNilConst(y) {
+				return false
+			}
+			for _, o := range ir.Origins(x) {
+				if ld, isLd := o.(*ssa.UnOp); isLd && ld.Op == token.MUL && ownLink(ld.X) == link {
+					return true
+				}
+			}
+			return false
+		})
+	}
+	for _, ns := range nbr {
+		ns := ns
+		// value: node's own link of the same name, read before the node's links are cleared; or nil where no neighbour
+		okVal, detail := false, "a neighbour's link "+ns.field.Name()+" does not receive the unlinked node's own "+ns.field.Name()
+		if ir.IsNilConst(ns.st.Val) {
+			okVal = noNeighbour(ns.st.Block(), ns.field)
+			detail = "a neighbour's link " + ns.field.Name() + " is cut (nil) although the unlinked node may have a neighbour on that side: everything behind it drops out of the list"
+		} else {
+			for _, o := range ir.Origins(ns.st.Val) {
+				ld, isLd := o.(*ssa.UnOp)
+				if !isLd || ld.Op != token.MUL || ownLink(ld.X) != ns.field {
+					continue
+				}
+				okVal = true
+				for _, os := range own {
+					if ownLink(os.Addr) != ns.field {
+						continue
+					}
+					if w, _ := (ir.Query{Fn: fn, From: os, Target: func(x ssa.Instruction) bool { return x == ssa.Instruction(ld) }}).Find(); w != nil {
+						okVal = false
+						detail = "the unlinked node's own link " + ns.field.Name() + " is overwritten before it is handed to the neighbour: the neighbour receives the cleared link"
+					}
+				}
+			}
+		}
+		c.Decide(rule, fn, "neighbour receives the node's own link", ns.st, okVal, detail+" - the neighbour then looks like an end of the list; a later unlink moves the head past live entries (they stay in the index, are never iterated, evicted or cleared)")
+		// pairing
+		var other *types.Var
+		for _, l := range fieldsWhere(r.node, func(f *types.Var) bool { return r.isNodePtr(f.Type()) }) {
+			if l != ns.via {
+				other = l
+			}
+		}
+		if other == nil {
+			continue
+		}
+		isOther := func(x ssa.Instruction) bool {
+			st, ok := x.(*ssa.Store)
+			if !ok {
+				return false
+			}
+			a, _ := nbrLink(st.Addr)
+			return a == other
+		}
+		paired := noNeighbour(ns.st.Block(), other)
+		if !paired {
+			for _, o := range nbr {
+				if o.via == other && ir.Dominates(o.st, ns.st) {
+					paired = true
+				}
+			}
+		}
+		if !paired {
+			w, err := (ir.Query{Fn: fn, From: ns.st, Block: isOther, Target: ir.IsExit}).Find()
+			paired = err == nil && w == nil
+		}
+		c.Decide(rule, fn, "both neighbours are rewired", ns.st, paired,
+			"the unlink routine rewires the neighbour on one side and can leave without rewiring the one on the other side: that neighbour keeps pointing at the unlinked node")
 	}
 }
